@@ -187,7 +187,7 @@ def _c07_case(seed):
     from pytestarch import DiagramRule
     from pathlib import Path
     rng = random.Random(seed)
-    comps = rng.sample(["core", "api", "db", "util", "ui", "shop"], rng.randint(2, 5))
+    comps = rng.sample(["core", "api", "db", "util", "ui", "shop", "größe"], rng.randint(2, 5))
     pairs = [(a, b) for a in comps for b in comps if a != b]
     relation = set(rng.sample(pairs, rng.randint(0, min(5, len(pairs)))))
     base = rng.choice(["app", "shop", "r"])
@@ -207,7 +207,11 @@ def _c07_case(seed):
         # a module importing the base package, i.e. one of its own ancestors: that is 'something outside the drawn targets and the component itself'
         imports.add((rng.choice(cand), base))
     arch = build_arch(mods, sorted(imports))
-    lines = [f"[{c}]" for c in comps if rng.random() < 0.7 or not any(c in p for p in relation)] + [f"[{a}] --> [{b}]" for a, b in sorted(relation)]
+    # some components are declared with an alias, which the arrows then use on either side
+    aliased = {c: f"AL{i}" for i, c in enumerate(comps) if rng.random() < 0.3}
+    ref = lambda c: aliased[c] if c in aliased and rng.random() < 0.7 else f"[{c}]"
+    lines = [f"[{c}] as {aliased[c]}" for c in comps if c in aliased] + \
+            [f"[{c}]" for c in comps if c not in aliased and (rng.random() < 0.7 or not any(c in p for p in relation))] + [f"{ref(a)} --> {ref(b)}" for a, b in sorted(relation)]
     out = []
     for naming in ("with_base", "included"):
         names = (lambda c: c) if naming == "with_base" else (lambda c: f"{base}.{c}")
